@@ -367,8 +367,19 @@ func (x *c16ctx) checkNewTransform() {
 				continue
 			}
 			f := call.Call.StaticCallee()
-			if f == nil || !x.isSource(ecCalleeObj(f)) {
+			if f == nil {
 				continue
+			}
+			if !x.isSource(ecCalleeObj(f)) {
+				// a repository helper that performs the first read and hands its error up
+				relays, swallowed := x.relaysSource(call)
+				if swallowed != "" {
+					c.Bad("R16c", core.FuncKey(fn)+" checks "+ecCalleeName(call), core.InstrPos(call), "the helper performs the first read from the input but its error result does not carry the failure of "+swallowed)
+					continue
+				}
+				if !relays {
+					continue
+				}
 			}
 			callee := ecCalleeName(call)
 			key := core.FuncKey(fn) + " checks " + callee
@@ -438,6 +449,59 @@ func (x *c16ctx) checkNewTransform() {
 			c.Check(okDom, "R16c", key, core.InstrPos(ci), "dominated by the nil edge of the input-read error", "the ingester is created on a path on which the first read from the input may have failed")
 		}
 	}
+}
+
+// relaysSource: the call goes to a repository function (helpers followed through static calls) that calls an input
+// source, and the classes of its error result carry the failure of every source it calls. swallowed names a source
+// called by the helper whose failure is not among the classes of the error the helper returns.
+func (x *c16ctx) relaysSource(call *ssa.Call) (relays bool, swallowed string) {
+	callee := call.Call.StaticCallee()
+	if callee == nil || callee.Blocks == nil || !core.InRepo(core.FuncPkg(callee)) {
+		return false, ""
+	}
+	var direct []*types.Func
+	seen := map[*ssa.Function]bool{}
+	var walk func(f *ssa.Function, depth int)
+	walk = func(f *ssa.Function, depth int) {
+		if f == nil || f.Blocks == nil || seen[f] || depth > 3 || !core.InRepo(core.FuncPkg(f)) {
+			return
+		}
+		seen[f] = true
+		for _, ci := range core.Calls(f) {
+			if ci.Common().IsInvoke() {
+				continue
+			}
+			g := ci.Common().StaticCallee()
+			if g == nil {
+				continue
+			}
+			if o := ecCalleeObj(g); x.isSource(o) {
+				direct = append(direct, o)
+				continue
+			}
+			walk(g, depth+1)
+		}
+	}
+	walk(callee, 0)
+	if len(direct) == 0 {
+		return false, ""
+	}
+	idxs := ecErrResultIdx(call.Call.Signature())
+	if len(idxs) == 0 {
+		return false, ecFuncName(direct[0])
+	}
+	have := map[*types.Func]bool{}
+	for _, idx := range idxs {
+		for _, el := range x.carried(x.e.callClasses(call, idx, ecStack{})) {
+			have[el.Fn] = true
+		}
+	}
+	for _, o := range direct {
+		if !have[o] {
+			return false, ecFuncName(o)
+		}
+	}
+	return true, ""
 }
 
 func (x *c16ctx) checkIngesters() {
